@@ -21,18 +21,18 @@ import (
 )
 
 type freeOp struct {
-	kind int // 0 store 1 load 2 los 3 delete 4 ash 5 keys 6 close 7 exit
+	kind int // 0 store 1 load 2 los 3 delete 4 ash 5 keys 6 close 7 exit 8 rsh (RemoveStoreHook)
 	p, v int
 	fail bool
 }
 
 func (o freeOp) String() string {
-	names := []string{"store", "load", "los", "delete", "ash", "keys", "close", "exit"}
+	names := []string{"store", "load", "los", "delete", "ash", "keys", "close", "exit", "rsh"}
 	return fmt.Sprintf("%s(p%d,%d,%v)", names[o.kind], o.p, o.v, o.fail)
 }
 
 func genFree(rng *lib.RNG, nprocs int, withExit bool) freeOp {
-	w := []int{6, 3, 8, 3, 2, 1, 1, 0}
+	w := []int{6, 3, 8, 3, 2, 1, 1, 0, 1}
 	if withExit {
 		w[7] = 3
 	}
@@ -49,7 +49,7 @@ func runFreeCase(c *lib.Ctx, rng *lib.RNG, fails *[]lib.OracleFail) string {
 	inits := make([]atomic.Int64, nprocs)
 	delTrue := make([]atomic.Int64, nprocs)
 	var closes atomic.Int64
-	hook := process.StoreFunc(func(int) {})
+	hooks := []process.StoreHook[int]{process.StoreFunc(func(int) {}), process.StoreFunc(func(int) {})}
 
 	plans := [2][][]freeOp{}
 	for ph := 0; ph < 2; ph++ {
@@ -58,7 +58,7 @@ func runFreeCase(c *lib.Ctx, rng *lib.RNG, fails *[]lib.OracleFail) string {
 			n := rng.Range(2, c.Scale(10, 24))
 			for i := 0; i < n; i++ {
 				o := genFree(rng, nprocs, ph == 1)
-				c.Hit("free-op-" + []string{"store", "load", "los", "delete", "ash", "keys", "close", "exit"}[o.kind])
+				c.Hit("free-op-" + []string{"store", "load", "los", "delete", "ash", "keys", "close", "exit", "rsh"}[o.kind])
 				plans[ph][t] = append(plans[ph][t], o)
 			}
 		}
@@ -91,7 +91,7 @@ func runFreeCase(c *lib.Ctx, rng *lib.RNG, fails *[]lib.OracleFail) string {
 				delTrue[o.p].Add(1)
 			}
 		case 4:
-			l.AddStoreHook(p, hook)
+			l.AddStoreHook(p, hooks[o.v%2])
 		case 5:
 			l.Keys()
 		case 6:
@@ -99,6 +99,8 @@ func runFreeCase(c *lib.Ctx, rng *lib.RNG, fails *[]lib.OracleFail) string {
 			l.Close()
 		case 7:
 			p.Exit(nil)
+		case 8:
+			l.RemoveStoreHook(p, hooks[o.v%2])
 		}
 	}
 
